@@ -43,7 +43,7 @@ def classify(what, ev):
     """coarse class of a violated predicate on an offer: which clause of the statement is concerned"""
     a = ev.get("attrs") or {}
     if what in ("Sound", "HdrSound"):
-        if ev.get("pre", {}).get("hdrs") and not a.get("wit", True) and a.get("hid") == "c":
+        if what == "Sound" and ev.get("pre", {}).get("hdrs") and not a.get("wit", True) and a.get("hid") == "c":
             return "block-witness-altered-header-known"
         td = a.get("txdef")
         if td == "mutual_evict":
@@ -86,6 +86,14 @@ def run(ctx):
         raise vlib.Inconclusive("case table: a predicted rejection contradicts the abstract level")
     ctx.extra["case_table_rows"] = len(rows)
     ctx.extra["case_table_predicted_violations"] = sum(1 for r in rows if not r["abstract_ok"])
+    st0, tr0 = ctx.states, ctx.transitions
+    drows = ctx.tlc_dump("accept", "AcceptCases.tla", "Cases_design.cfg", timeout=600)
+    ctx.states, ctx.transitions = st0, tr0
+    if not all(r["abstract_ok"] for r in drows):
+        raise vlib.Inconclusive("case table: the design model's prediction contradicts the abstract level")
+    design = {json.dumps(r["case"], sort_keys=True): r["pred"] for r in drows}
+    for r in rows:
+        r["pred_design"] = design[json.dumps(r["case"], sort_keys=True)]
     rows.sort(key=lambda r: json.dumps(r["case"], sort_keys=True))
     if q:
         rows = [r for r in rows if r["case"]["state"] in QUICK_STATES or r["case"]["kind"] == "valid"]
